@@ -2,7 +2,7 @@
    md5 is universally quantified everywhere (a Section variable in Model.v). *)
 From Coq Require Import String List Bool ZArith Permutation.
 Import ListNotations.
-Require Import V.Lib.PyStr V.Lib.JTree V.Memo.Model V.Memo.Proofs.
+Require Import V.Lib.PyStr V.Lib.JTree V.Memo.Model V.Memo.Proofs V.Memo.Entries V.Memo.Chain V.Memo.Regex V.Memo.Examples.
 Open Scope string_scope.
 
 (* The closed form [serialise] is the coded traversal applied to the info dictionary. *)
@@ -65,6 +65,90 @@ Theorem C16_sound_partial : forall md5 i i',
 Proof. exact sound_hash. Qed.
 Print Assumptions C16_sound_partial.
 
+(* File entries are self-delimiting: <32 hex>:<method> and fuzzy#<32 hex>#<path without ':'>:<method>
+   ([wf_files], a boolean).  The concatenation of the sorted entries, which is all the hash sees,
+   determines the entries as a multiset. *)
+Theorem C16_files_determined : forall fs fs',
+  wf_files fs = true -> wf_files fs' = true -> cat (sort fs) = cat (sort fs') -> Permutation fs fs'.
+Proof. exact files_from_concat. Qed.
+Print Assumptions C16_files_determined.
+
+(* ... and every file list the model computes is of that shape, strong or fuzzy, for every workflow whose
+   references use reference methods and whose paths below a producer contain no ':' ([wf_ref]), when md5
+   returns digests. *)
+Theorem C16_files_wellformed : forall md5, (forall s, hex32 (md5 s) = true) ->
+  forall fuzzy g i, forallb (fun c => forallb wf_ref (c_refs c)) g = true ->
+    In (Some i) (infos md5 fuzzy g) -> wf_files (i_files i) = true.
+Proof. exact infos_wf. Qed.
+Print Assumptions C16_files_wellformed.
+
+(* "Exactly when": for unambiguous serialisations with well-formed file entries on which md5 does not
+   collide, the hashes are equal if and only if executable, replaced arguments, file entries (as a
+   multiset of hash:method) and image are equal. *)
+Theorem C16_exactly_when : forall md5 i i',
+  (md5 (serialise i) = md5 (serialise i') -> serialise i = serialise i') ->
+  unambiguous i -> unambiguous i' -> wf_files (i_files i) = true -> wf_files (i_files i') = true ->
+  (hash_info md5 i = hash_info md5 i' <->
+   i_exe i = i_exe i' /\ i_args i = i_args i' /\ Permutation (i_files i) (i_files i') /\ i_image i = i_image i').
+Proof. exact exactly_when. Qed.
+Print Assumptions C16_exactly_when.
+
+(* Fuzzy hashes over a whole workflow: changing only the contents of files made by producers
+   ([blank] erases them) changes no fuzzy info and no fuzzy hash, of any component. *)
+Theorem C16_fuzzy_contents_graph : forall md5 g g',
+  map blank g = map blank g' ->
+  infos md5 true g = infos md5 true g' /\ hashes md5 true g = hashes md5 true g'.
+Proof. exact fuzzy_contents_graph. Qed.
+Print Assumptions C16_fuzzy_contents_graph.
+
+(* The fuzzy chain, any length: component k+1 of [rest] consumes a file made by component k and has no
+   other producer ([is_chain]).  If the first producer changes its executable, replaced arguments or
+   image, the fuzzy hash of EVERY component of the chain that has one changes (md5 returns digests and,
+   position by position, does not collide on the two unambiguous buffers: [good]). *)
+Theorem C16_fuzzy_chain : forall md5, (forall s, hex32 (md5 s) = true) ->
+  forall c0 c0' rest,
+  is_chain 0 rest -> forallb (fun c => forallb wf_ref (c_refs c)) rest = true ->
+  good md5 (infos md5 true (c0 :: rest)) (infos md5 true (c0' :: rest)) ->
+  (forall i i', nth 0 (infos md5 true (c0 :: rest)) None = Some i -> nth 0 (infos md5 true (c0' :: rest)) None = Some i' ->
+                i_exe i <> i_exe i' \/ i_args i <> i_args i' \/ i_image i <> i_image i') ->
+  forall k h h', nth k (hashes md5 true (c0 :: rest)) None = Some h -> nth k (hashes md5 true (c0' :: rest)) None = Some h' ->
+                 h <> h'.
+Proof. exact fuzzy_chain. Qed.
+Print Assumptions C16_fuzzy_chain.
+
+(* The argument string at character level.  [resub ref rep s] is re.sub(r'\b' + re.escape(ref) + r'\b', rep, s)
+   (tied to Python's re by the correspondence run).  A reference contains no blank, so the replacement is local
+   to the blank-separated words of the arguments, whatever they are: *)
+Theorem C16_resub_words : forall ref rep ws, blank_free ref = true ->
+  resub ref rep (join " " ws) = join " " (map (resub ref rep) ws).
+Proof. exact resub_join. Qed.
+Print Assumptions C16_resub_words.
+
+(* ... a word that is the reference itself is replaced when the reference begins and ends with a word character,
+   and a word in which the reference does not occur is left alone. *)
+Theorem C16_resub_word : forall ref rep,
+  (headw ref = true -> lastw ref = true -> resub ref rep ref = rep) /\
+  (forall w, occurs ref w = false -> resub ref rep w = w).
+Proof. intros ref rep. split; [apply resub_self|intros w; apply resub_no_occ]. Qed.
+Print Assumptions C16_resub_word.
+
+(* The code's loop (one re.sub per discovered reference, in the code's order: [args_chars]) and the token model
+   [args_of] give the same arguments, hence the same info, on blank-delimited arguments: the token list is
+   [blanks ws] and every word alone is rewritten to what the token model says ([delimited], a boolean). *)
+Theorem C16_regex_is_tokens : forall md5 fuzzy ph disc order c ws,
+  c_args c = blanks ws -> delimited md5 fuzzy ph disc order c ws = true ->
+  args_chars md5 fuzzy ph disc order c = args_of md5 fuzzy ph (c_refs c) (c_args c) /\
+  info_of_chars md5 fuzzy ph disc order c = info_of md5 fuzzy ph c.
+Proof. exact regex_is_tokens. Qed.
+Print Assumptions C16_regex_is_tokens.
+
+(* ... for whole workflows: the character-level infos are the infos of the token model, so every theorem above
+   about [infos]/[hashes] holds of the character-level model on delimited workflows. *)
+Theorem C16_regex_is_tokens_graph : forall md5 fuzzy g,
+  delimited_graph md5 fuzzy g = true -> infos_chars md5 fuzzy g = infos md5 fuzzy (map fst g).
+Proof. exact infos_chars_tokens. Qed.
+Print Assumptions C16_regex_is_tokens_graph.
+
 (* non-vacuity: a producer and a consumer of its file out.txt and of an input; md5 s = "<s>" *)
 Definition ex_md5 (s : string) : string := "<" ++ s ++ ">".
 Definition ex_prod : comp := {| c_name := "gen"; c_stage := 0; c_location := "/tmp/i1"; c_exe := "echo";
@@ -84,3 +168,29 @@ Example C16_nonvacuous :
   /\ nth 1 (hashes ex_md5 false [ex_prod; ex_cons "OUT"]) None <> nth 1 (hashes ex_md5 false [ex_prod; ex_cons "other"]) None
   /\ forallb (fun o => match o with Some i => unambiguousb i | None => false end) (infos ex_md5 false [ex_prod; ex_cons "OUT"]) = true.
 Proof. vm_compute. repeat split; congruence. Qed.
+
+(* non-vacuity of the hypotheses of C16_files_wellformed / C16_exactly_when / C16_fuzzy_chain: a digest
+   function, a chain gen -> mid -> last whose first producer changes its arguments; every component of both
+   workflows has a fuzzy hash, all of them well-formed and unambiguous, and all three hashes differ. *)
+Example C16_nonvacuous_chain :
+  (forall s, hex32 (ex_digest s) = true) /\ is_chain 0 ch_rest /\
+  forallb (fun c => forallb wf_ref (c_refs c)) (ch_gen "-n hello" :: ch_rest) = true /\
+  good ex_digest (infos ex_digest true (ch_gen "-n hello" :: ch_rest)) (infos ex_digest true (ch_gen "-n bye" :: ch_rest)) /\
+  forallb (fun o => match o with Some i => unambiguousb i && wf_files (i_files i) && negb (Nat.eqb (length (i_files i)) 0) | None => false end)
+          (tl (infos ex_digest true (ch_gen "-n hello" :: ch_rest))) = true /\
+  forallb (fun o => match o with Some i => wf_files (i_files i) | None => false end)
+          (infos ex_digest false (ch_gen "-n hello" :: ch_rest)) = true /\
+  forallb (fun hh => match hh with (Some h, Some h') => negb (String.eqb h h') | _ => false end)
+          (combine (hashes ex_digest true (ch_gen "-n hello" :: ch_rest)) (hashes ex_digest true (ch_gen "-n bye" :: ch_rest))) = true.
+Proof.
+  split; [exact ex_digest_hex|]. split; [exact ch_is_chain|]. split; [vm_compute; reflexivity|].
+  split; [exact ch_good|]. repeat split; vm_compute; reflexivity.
+Qed.
+
+(* non-vacuity of [delimited_graph]: the workflow of C16_nonvacuous with the oracles the code computes for it *)
+Example C16_nonvacuous_regex :
+  let g := [(ex_prod, ([], [])); (ex_cons "OUT", (["stage0.gen/out.txt:ref"; "input/in.txt:ref"], [0%nat; 1%nat]))] in
+  delimited_graph ex_md5 false g = true /\ delimited_graph ex_md5 true g = true /\
+  nth 1 (infos_chars ex_md5 false g) None =
+    Some {| i_files := ["<OUT>:ref"; "<abc>:ref"]; i_exe := "cat"; i_args := "file:<OUT>:ref file:<abc>:ref"; i_image := None |}.
+Proof. vm_compute. repeat split; reflexivity. Qed.
